@@ -152,6 +152,30 @@ def _subs_handles(defs: Defs, nodes, selfname, sp, f, kind) -> Tuple[bool, str]:
             if isinstance(n, (ast.Assign, ast.AugAssign, ast.AnnAssign)):
                 targets = n.targets if isinstance(n, ast.Assign) else [n.target]
                 for t in targets:
+                    # self.a, self.b = (p.subs(s) for p in (self.a, self.b)) : position i of the target tuple is written from position i of the iterated tuple
+                    if isinstance(t, (ast.Tuple, ast.List)) and isinstance(n.value, (ast.GeneratorExp, ast.ListComp)) and len(n.value.generators) == 1 \
+                            and isinstance(n.value.generators[0].iter, (ast.Tuple, ast.List)) and len(n.value.generators[0].iter.elts) == len(t.elts) \
+                            and isinstance(n.value.generators[0].target, ast.Name) and not n.value.generators[0].ifs:
+                        for i_, el in enumerate(t.elts):
+                            if is_self_attr(el, f, selfname):
+                                src_el = n.value.generators[0].iter.elts[i_]
+                                lv = n.value.generators[0].target.id
+                                elt = n.value.elt
+                                uses = any(isinstance(x, ast.Name) and x.id == lv for x in ast.walk(elt))
+                                call_ok = any(isinstance(x, ast.Call) and any(("param:" + sp) in defs.roots(a_) for a_ in x.args) for x in ast.walk(elt))
+                                if is_self_attr(src_el, f, selfname) and uses and call_ok:
+                                    return True, src(n)
+                                return False, f"`{src(n)[:80]}` writes {want_self} from `{src(src_el)}`"
+                        continue
+                    if isinstance(t, (ast.Tuple, ast.List)) and isinstance(n.value, (ast.Tuple, ast.List)) and len(n.value.elts) == len(t.elts):
+                        for i_, el in enumerate(t.elts):
+                            if is_self_attr(el, f, selfname):
+                                v_ = n.value.elts[i_]
+                                roots = _roots_no_selfdef(defs, v_)
+                                if want_self in roots and ("param:" + sp) in roots and any(isinstance(x, ast.Call) for x in ast.walk(v_)):
+                                    return True, src(n)
+                                return False, f"`{src(v_)}` does not combine {want_self} with `{sp}`"
+                        continue
                     if is_self_attr(t, f, selfname) and n.value is not None:
                         roots = _roots_no_selfdef(defs, n.value)
                         has_call = any(isinstance(x, ast.Call) for x in ast.walk(n.value))
@@ -872,6 +896,16 @@ def rule_a4_moment(repo: Repo) -> List[Ob]:
                     summands.append((t.id, v))
             else:
                 summands.append(("", t))
+        # sum(<term> for ...)  /  sum([...], start): the summand is the element of the comprehension
+        unrolled = []
+        for name, e in summands:
+            if isinstance(e, ast.Call) and call_name(e) == "sum" and e.args and isinstance(e.args[0], (ast.GeneratorExp, ast.ListComp)):
+                unrolled.append((name, e.args[0].elt))
+                if len(e.args) > 1 and not (isinstance(e.args[1], ast.Constant) and e.args[1].value == 0):
+                    unrolled.append((name, e.args[1]))
+            else:
+                unrolled.append((name, e))
+        summands = unrolled
         else_terms = []
         if_terms = []
         for name, e in summands:
